@@ -377,6 +377,7 @@ func Run(opts *Options) (int, error) {
 							query = []rune{}
 						}
 						var changed bool
+						verifTrace("core.pushed", verifPushed(chunkList, &itemIndex), 0, "")
 						snapshot, count, changed = chunkList.Snapshot(opts.Tail)
 						verifTrace("core.snapshot", count, verifSnapshotEnd(snapshot), "")
 						if changed {
